@@ -17,6 +17,7 @@ import (
 	"strings"
 	"testing"
 
+	"github.com/ozontech/seq-db/conf"
 	"github.com/ozontech/seq-db/disk"
 	pb "github.com/ozontech/seq-db/pkg/storeapi"
 	"github.com/ozontech/seq-db/proxy/search"
@@ -25,6 +26,7 @@ import (
 	"github.com/ozontech/seq-db/zzverif/refdb"
 	"github.com/ozontech/seq-db/zzverif/vfrac"
 	"github.com/ozontech/seq-db/zzverif/vlib"
+	"google.golang.org/grpc/metadata"
 )
 
 // decoded field names; c20Spell gives the raw spelling of the key in the stored document where it is
@@ -372,9 +374,23 @@ func TestVerifC20(t *testing.T) {
 		}
 	}
 	// ---- via the proxy: `<query> | fields …` ----
+	// the request context rotates between: bare (in-process call), gRPC metadata with the header use-seq-ql: true,
+	// and gRPC metadata WITHOUT that header while SeqQL is the configured default language
+	ctxMode := 0
 	plain := func(q string) ([]seq.ID, [][]byte, error) {
 		sr := &search.SearchRequest{Q: []byte(q), Size: len(rdocs) + 5, From: 0, To: seq.MID(vfrac.MaxMID), ShouldFetch: true, Order: seq.DocsOrderDesc}
-		qpr, stream, _, err := cl.ing.Search(context.Background(), sr, querytracer.New(false, "verif"))
+		ctx := context.Background()
+		ctxMode++
+		switch ctxMode % 3 {
+		case 1:
+			ctx = metadata.NewIncomingContext(ctx, metadata.Pairs("use-seq-ql", "true", "x-client", "verif"))
+		case 2:
+			old := conf.UseSeqQLByDefault
+			conf.UseSeqQLByDefault = true
+			defer func() { conf.UseSeqQLByDefault = old }()
+			ctx = metadata.NewIncomingContext(ctx, metadata.Pairs("x-client", "verif"))
+		}
+		qpr, stream, _, err := cl.ing.Search(ctx, sr, querytracer.New(false, "verif"))
 		if err != nil {
 			return nil, nil, err
 		}
@@ -448,7 +464,7 @@ func TestVerifC20(t *testing.T) {
 	r.Sample(c20Case{Doc: docs[len(docs)/2], Filter: filters[len(filters)/2], Via: "fetch"})
 	ev := r.Get("evaluations")
 	r.Finish(t, "model_checking",
-		fmt.Sprintf("%d stored JSON objects from the grammar names{a,b,a.b,é,\"\",a spelled \\u0061,é spelled \\u00e9,q\"\\k} x values{1,-0.5e3,\"s\",escaped string,\"é\",true,null,{},{\"x\":1},[1,{\"y\":2}],\"\"} with 0..3 fields (all 1- and 2-field name sequences, 3-field ones thinned in quick), with and without insignificant whitespace; %d field filters = every list of <=3 names over {a,b,a.b,zz} incl. repeats in allow and except mode, no filter, and lists with é / empty name / a name with quote and backslash; every (document, filter) through the streaming GrpcV1.Fetch of an in-process store; every filter again with requests of 1 and 2 IDs (6 documents each); every ordered pair of requests over 10 filters incl. lists of 9 and 12 names, sequentially (the answer must not depend on the request served before); every filter (quick: every 5th) again through search.Ingestor.Search with a fields pipe (keyword spelled fields / FIELDS / Fields in rotation) (ID sequence must equal the un-piped search). Oracle: output is a JSON object with exactly the expected key set, every kept value JSON-equal (numbers numerically), no filter => identical bytes", len(docs), len(filters)),
+		fmt.Sprintf("%d stored JSON objects from the grammar names{a,b,a.b,é,\"\",a spelled \\u0061,é spelled \\u00e9,q\"\\k} x values{1,-0.5e3,\"s\",escaped string,\"é\",true,null,{},{\"x\":1},[1,{\"y\":2}],\"\"} with 0..3 fields (all 1- and 2-field name sequences, 3-field ones thinned in quick), with and without insignificant whitespace; %d field filters = every list of <=3 names over {a,b,a.b,zz} incl. repeats in allow and except mode, no filter, and lists with é / empty name / a name with quote and backslash; every (document, filter) through the streaming GrpcV1.Fetch of an in-process store; every filter again with requests of 1 and 2 IDs (6 documents each); every ordered pair of requests over 10 filters incl. lists of 9 and 12 names, sequentially (the answer must not depend on the request served before); every filter (quick: every 5th) again through search.Ingestor.Search with a fields pipe (keyword spelled fields / FIELDS / Fields in rotation; request context bare / with the use-seq-ql header / header-less with SeqQL as the configured default, in rotation) (ID sequence must equal the un-piped search). Oracle: output is a JSON object with exactly the expected key set, every kept value JSON-equal (numbers numerically), no filter => identical bytes", len(docs), len(filters)),
 		map[string]any{
 			"states":                        len(docs) * len(filters),
 			"transitions":                   ev,
